@@ -421,8 +421,8 @@ struct tlv *makevendortlv(uint32_t vendor, struct tlv *attr) {
     return newtlv;
 }
 
-int resizeattr(struct tlv *attr, uint8_t newlen) {
-    if (newlen > RAD_Max_Attr_Value_Length)
+int resizeattr(struct tlv *attr, int newlen) {
+    if (newlen < 0 || newlen > RAD_Max_Attr_Value_Length)
         return 0;
 
     if (resizetlv(attr, newlen))
